@@ -5,7 +5,7 @@ from ..gen import schema_lines, NOCASE, COMMENTS, IGNORE_UNKNOWN
 from .C01 import hand_schemas
 
 THEOREMS = ["C12_skip_body", "C12_skip_value", "C12_skip_list", "C12_skip_call", "C12_skip_section", "C12_skip_titled_section",
-            "C12_clean", "C12_flag_off", "enter_skip", "skip_until", "getoptPath_quiet", "getoptPath_setLine", "depthAfter_nest", "C12_insert", "C12_insert_value", "C12_insert_list", "C12_insert_call", "C12_insert_section", "C12_insert_titled_section", "sim_step"]
+            "C12_clean", "C12_flag_off", "enter_skip", "skip_until", "getoptPath_quiet", "getoptPath_setLine", "depthAfter_nest", "C12_insert", "C12_insert_value", "C12_insert_list", "C12_insert_call", "C12_insert_section", "C12_insert_titled_section", "sim_step", "C12_insert_reachable", "pstep_inv", "parseToks_inv"]
 PARTIAL = ("Proved: from an item boundary (state 0 of any frame, any depth) an undeclared name followed by a value, an append, a list, a call, or a "
            "plain/titled section whose content is ANY brace-balanced token sequence (any size, any nesting: depthAfter_nest) brings the machine back to "
            "state 0 of the same frame with the same tree, the same diagnostic and callback logs and the same number of frames (no recursion); path "
@@ -52,6 +52,10 @@ def generate(rng, tier):
                     unk = gen.deep_unknown(d, rng.choice([[], [b"a", b"=", b"1"], [b"l", b"=", b"{", b"1", b"}"], [b"f", b"(", b")"]]))
                 else:
                     unk = gen.gen_unknown(rng)
+                    if rng.random() < 0.15:
+                        # an undeclared leaf under a declared name: `declared|zzu`
+                        decl = [o.name.encode() for o in opts]
+                        unk = [rng.choice(decl) + b"|zzu"] + unk[1:]
                 var = b" ".join(toks[:k] + unk + toks[k:]) + b"\n"
                 lines = sl + ["X 0 %d" % ctxflags, "PB 0 " + hx(base), "D 0", "X 1 %d" % ctxflags, "PB 1 " + hx(var), "D 1",
                               "X 2 %d" % (ctxflags & ~IGNORE_UNKNOWN), "PB 2 " + hx(var)]
